@@ -265,25 +265,34 @@ def main():
         pr["id"] = name          # identified by the CONFIGURED name; pc.name is checked against it (path_config_names)
         out.setdefault("path_config_names", []).append([name, pc.name])
         out["path_resolvers"].append(pr)
-        mapping = []
-        allow = os.environ.get("SPIL_VERIF_ALLOW_UNMODELLED") == "1"    # oracle-only runs: no model of these features
+        mapping, typed_mapping = [], []
+        # a typed mapping / extra keys: modelled for path_to_dict / dict_to_path (Spil.Model.PathX), NOT for the file
+        # searches; such a configuration is read only for the runs that stay within that part of the model
+        allow = os.environ.get("SPIL_VERIF_ALLOW_UNMODELLED") == "1"
         for k, v in pc.path_mapping.items():
             if not isinstance(k, str):
-                if allow:
+                if allow and isinstance(k, tuple) and len(k) == 2 and all(isinstance(x, str) for x in k):
                     out.setdefault("unmodelled", []).append("typed path_mapping key %r in %s" % (k, name))
+                    typed_mapping.append([[k[0], k[1]], pairs(v)])
                     continue
                 raise OutOfSubset("typed path_mapping key %r" % (k,))
             mapping.append([k, pairs(v)])
+        sid_to_extra, extra_to_sid = [], []
         if pc.sidkeys_to_extrakeys or pc.extrakeys_to_sidkeys:
             if not allow:
                 raise OutOfSubset("extra keys")
             out.setdefault("unmodelled", []).append("extra keys in %s" % name)
+            sid_to_extra = [[k, [[nk, pairs(m)] for nk, m in v.items()]] for k, v in pc.sidkeys_to_extrakeys.items()]
+            extra_to_sid = [[k, [[sk, pairs(m)] for sk, m in v.items()]] for k, v in pc.extrakeys_to_sidkeys.items()]
         out["conf"]["paths"].append({
             "name": name,
             "templates": [[l["label"], l["tokens"]] for l in pr["labels"]],
             "mapping": mapping,
             "defaults": pairs(pc.path_defaults),
             "search_mapping": pairs(pc.search_path_mapping),
+            "typed_mapping": typed_mapping,
+            "sid_to_extra": sid_to_extra,
+            "extra_to_sid": extra_to_sid,
         })
         root = getattr(pc, "project_server_root_path", None) if name != "local" else None
         out["roots"][name] = canon(str(root or getattr(pc, "project_root_path", "")).replace(os.sep, "/"))
